@@ -49,11 +49,12 @@ def conf_batched(ctx, module, cfg, recs, label, bsize=32, big=2000, size=lambda 
     pr, ir = ucheck.conformance(ctx, module, cfg, [{'b': [recs[k] for k in b]} for b in batches], label, chunk=max(200, 12000 // bsize))
     prej, irej = [], []
     for rejected, out in ((pr, prej), (ir, irej)):
+        rejected = sorted(rejected)
+        if len(rejected) > 60:      # many rejected batches: re-evaluate an evenly spread selection (first and last included)
+            rejected = [rejected[(j * (len(rejected) - 1)) // 59] for j in range(60)]
         singles = [k for bi in rejected for k in batches[bi]]
-        if len(singles) > 400:
-            singles = singles[:400]
         if singles:
-            p1, i1 = ucheck.conformance(ctx, module, cfg, [{'b': [recs[k]]} for k in singles], label + '-single')
+            p1, i1 = ucheck.conformance(ctx, module, cfg, [{'b': [recs[k]]} for k in singles], label + ('-singleP' if out is prej else '-singleI'))
             out += [singles[j] for j in (p1 if out is prej else i1)]
     for k in before:
         ctx.cov[k] = before[k] + len(recs)
